@@ -154,7 +154,7 @@ func alphabetFor(l language.Language) []string {
 
 func genProgram(r *rng, l language.Language, n int) string {
 	alpha := alphabetFor(l)
-	words := []string{"x", "foo", " ", " ", "  ", "é", "日本", "\xff", "\t", "1", "=", ";", "(", ")"}
+	words := []string{"x", "foo", " ", " ", "  ", "é", "日本", "\xff", "\t", "1", "=", ";", "(", ")", "\ufffd", "a\ufffdb", "\xef\xbf", "\U0001F600"}
 	var sb strings.Builder
 	pads := 0
 	for i := 0; i < n; i++ {
